@@ -3,7 +3,8 @@
 Spec: spec/Heartbeat.tla - rounds of ConnectionHeartbeat.run over the connections of the holders (HostConnection
       pools, control connection): send phase, wait phase, fail phase, one action per loop body, interleaved with the
       event loop delivering the answer to the OPTIONS request (SUPPORTED, error reply, transport error, close) or
-      nothing (timeout); per connection idle/busy, healthy/defunct/closed, in_flight 0..max (at capacity included);
+      nothing (timeout); per connection idle/busy, healthy/defunct/closed, in_flight 0..max (at capacity included),
+      socket writable or stuck (send_msg raises ConnectionBusy, which is not a ConnectionException);
       traffic and deaths between rounds.
 TLC : invariants AtMostOneHeartbeat, RoundPost (idle+healthy -> exactly one OPTIONS; busy -> none, idle flag reset;
       success -> in_flight and available stream ids as before; failure/silence -> defunct and owner notified exactly
@@ -40,7 +41,8 @@ META = {
 
 INVARIANTS = ["TypeOK", "AtMostOneHeartbeat", "RoundPost", "NoLeak"]
 ACTIONS = ["StartRound", "SendStep", "EndSend", "WaitStep", "EndWait", "FailStep", "EndRound", "Answer", "Traffic"]
-WITNESSES = ["Witness_SuccessAtLevel", "Witness_Timeout", "Witness_Full", "Witness_SecondRoundOk", "Witness_LateAnswer"]
+WITNESSES = ["Witness_SuccessAtLevel", "Witness_Timeout", "Witness_Full", "Witness_SecondRoundOk", "Witness_LateAnswer",
+             "Witness_StuckAmongHealthy"]
 MAX_REPORT = 10
 
 
@@ -130,7 +132,8 @@ def replay_graph(ctx, consts, label, nodes, edges, init):
         d = hb.replay(consts, states)
         covered.update(zip(w, w[1:]))
         acts = hb.actions_of(states)
-        if any(a["name"] == "Answer" or (a["name"] == "WaitStep" and a["kind"] in ("sent", "full")) for a in acts):
+        if any(a["name"] == "Answer" or (a["name"] == "WaitStep" and a["kind"] in ("sent", "full")) for a in acts) \
+                or any(not r["writable"] for r in states[0]["conn"].values()):
             ctx.nontrivial((label, i))
         if i % 3001 == 7:
             ctx.sample(dict(describe(consts, states), direction="spec->code"))
@@ -234,7 +237,8 @@ def run(ctx):
         "max_request_id scaled down to 2 on the instances (the loop and HeartbeatFuture only compare in_flight with it)",
         "the event loop's processing of a response is atomic w.r.t. the heartbeat thread's loop bodies (each takes the connection lock)",
         "executor / scheduler tasks triggered by owner.return_connection (reconnects, pool replacement) are not run between rounds",
-        "an idle connection at capacity cannot carry a heartbeat: the code fails it (defunct + owner notified); accepted as 'heartbeat fails'",
+        "an idle connection at capacity, or whose socket is not writable (ConnectionBusy), cannot carry a heartbeat: the code fails it "
+        "(defunct + owner notified); accepted as 'heartbeat fails'",
         "1-2 pools (one connection each) and the control connection; larger models checked by TLC only",
     ]
 
